@@ -374,6 +374,45 @@ PROPS["C16"] = {
     "design_ref": "DESIGN.md §7 C16",
 }
 
+PROPS["C19"] = {
+    "title": "SASL: no connection without successful authentication; SCRAM is mutual",
+    "module": "Theorems.C19",
+    "theorems": [
+        "Amqp.Sasl.listener_proceeds_iff",
+        "Amqp.Sasl.client_proceeds_iff",
+        "Amqp.Sasl.credentials_compared",
+        "Amqp.Sasl.listenLoop_eq",
+        "Amqp.Sasl.scramCliStep_eq",
+        "Amqp.Sasl.plain_ok_iff",
+        "Amqp.Sasl.plain_listener_sound",
+        "Amqp.Sasl.plain_listener_complete",
+        "Amqp.Sasl.listen_needs_sasl_header",
+        "Amqp.Sasl.listenLoop_passed",
+        "Amqp.Sasl.listenLoop_passed_iff",
+        "Amqp.Sasl.scram_init_never_ok",
+        "Amqp.Sasl.scram_response_ok",
+        "Amqp.Sasl.scram_firstSent_origin",
+        "Amqp.Sasl.serverFirst_nonce",
+        "Amqp.Sasl.scram_replay_needs_same_nonce",
+        "Amqp.Sasl.scram_listener_sound",
+        "Amqp.Sasl.client_refused_on_non_ok",
+        "Amqp.Sasl.client_authenticated_iff",
+        "Amqp.Sasl.client_finalSent_origin",
+        "Amqp.Sasl.clientFinal_spec",
+        "Amqp.Sasl.client_sound",
+        "Amqp.Sasl.client_cannot_skip_challenge",
+        "Amqp.Sasl.client_rejects_extra_challenge",
+        "Amqp.Sasl.simple_client_sound",
+    ],
+    "harness": ["sasl"],
+    "gen_files": ["Amqp/Gen/SaslTables.lean", "Amqp/Gen/SaslKernels.lean"],
+    "technique": "Lean 4 proof over all frame sequences on models of the listener's SASL loop, the PLAIN and SCRAM acceptors and the SCRAM client, with hash / HMAC / PBKDF2 as parameters and the decisions on outcome codes, frame kinds and the credential comparison generated from the source; tied to the code by differential runs against the harness' own SCRAM implementation and by scripted clients and servers on an in-memory transport",
+    "level_text": "Machine-checked on the model, for every sequence of client frames and every header: the listener leaves the SASL layer only after the SASL header and through an init or response that its acceptor answered with outcome ok, every other kind of frame, undecodable frame and end of stream ending in failure; with the PLAIN acceptor that frame is an init whose response is, byte for byte, [authzid] NUL user NUL password (an iff: nothing missing, no fourth field, no prefix, no differing byte), and such a peer is let in; with the SCRAM acceptor it is a response in the state left by an init of the same connection, naming that exchange's nonce (client nonce extended by the server's), binding the channel as n,, and carrying a proof p with H(p XOR HMAC(StoredKey, AuthMessage)) = StoredKey for the AuthMessage of this very exchange, so that a recorded client-final only verifies against the same nonce; an init alone never authenticates. For every sequence of server frames the SCRAM client reports success only on an outcome ok that carries a server-final whose v= is exactly HMAC(HMAC(Hi(password, salt, i), \"Server Key\"), AuthMessage) over the client-first it sent, the challenge as received (whose nonce must extend its own) and its client-final; a non-ok code is never success, the challenge cannot be skipped, a second challenge is an error; a PLAIN / ANONYMOUS client succeeds only on outcome ok. All for every choice of H, HMAC and Hi. SaslCode with its wire values, the listener's and the client's decision on each outcome code, their dispatch on each frame kind and the credential comparison are regenerated from the source on every run and the models take their decisions from those tables. Tied to the code by runs: PLAIN responses built around the configured credentials (equal / prefix / one bit off / extended / empty fields, 1..4 NUL-separated fields, authzid) and random ones; one ScramAuthenticator driven through honest, wrong-password, bit-flipped, replayed, re-nonced, re-bound, truncated, non-base64, extended, invalid-UTF-8 and out-of-order exchanges (SHA-1 / 256 / 512) by the harness' own RFC 5802 implementation; a real ConnectionAcceptor against scripted clients (every header, frame kinds in any order, AMQP frames and headers in the middle, oversize and undecodable frames, pipelined writes) and a real Connection::builder().sasl_profile() against scripted servers (nonce not extending, missing / malformed attributes, iteration count changed in flight, signatures absent / garbage / from a wrong password / over the unmodified message / truncated / followed by an extension, codes 1..4, extra challenges, early outcome, wrong header), each answer and verdict compared with the model line by line, and each run judged by an oracle written from the RFCs and the property.",
+    "level_note": "Trusted: Lean kernel; rs2lean's table extraction (first arm covering each variant, arm classified by the tokens break / return Ok / return Err / on_init / on_response / Negotiation::*) and kernel extraction; the hand-written models Amqp/Sasl.lean (message syntax, base64, UTF-8 check, state machines), compared with the implementation on every run; the harness' own SCRAM implementation (hmac / sha1 / sha2 / pbkdf2 crates — the same primitives the library uses, so a flaw in those crates is invisible) and scripted peers. Not shown, because no model of this code can: that the proof cannot be forged without the password (a property of HMAC / SHA / PBKDF2), constant-time comparison, SASLprep of non-ASCII passwords (runs use ASCII), the TLS layer under SASL EXTERNAL. Observed and not judged a violation: the client accepts an iteration count of 0 or 1 and a server nonce that adds nothing to its own.",
+    "assumptions": COMMON_ASSUME + ["HMAC / SHA / PBKDF2 of the RustCrypto crates are what they claim to be"],
+    "design_ref": "DESIGN.md §7 C19",
+}
+
 PROPS["C14"] = {
     "title": "Failures propagate: no call hangs, every handle learns why",
     "module": "Theorems.C14",
